@@ -250,7 +250,7 @@ export async function check(group, records) {
 
 export function meta({ tier }) {
   return {
-    rule: 'G-MODEL: host (10: input without/with static/dynamic type, select, textarea, bound and unbound component) x target (identifier, member, index, deep member) x argument form (none, :arg, string second element, computed second element) x modifier form (none, 1-2 `_` suffixes, array list, empty list) x neighbours, under {mergeProps, optimize}; plus random v-models lists of 1-3 entries, each also spelled as separate v-model attributes. Undecided combinations (argument on a form element, suffixes together with array slots) are skipped. Every onUpdate:* listener is fired with a sentinel and the bound target is read back. distinct_nontrivial = distinct feature tuples.',
+    rule: 'G-MODEL: host (10: input without/with static/dynamic type, select, textarea, bound and unbound component) x target (identifier, member, index, deep member, member / index of a call result, parenthesised chain) x argument form (none, :arg, string second element, computed second element) x modifier form (none, 1-2 `_` suffixes, array list, empty list) x neighbours, under {mergeProps, optimize}; plus random v-models lists of 1-3 entries, each also spelled as separate v-model attributes. Undecided combinations (argument on a form element, suffixes together with array slots) are skipped. Every onUpdate:* listener is fired with a sentinel and the bound target is read back. distinct_nontrivial = distinct feature tuples.',
     exhaustive: [tier === 'thorough' ? 'host x target x arg x mods x 4 neighbours x 4 option sets' : 'host x target x arg x mods on a bare host'],
     assumptions: ['listener identity is not compared, its effect is', 'v-model on elements other than input/select/textarea is not generated (statement does not name the directive)'],
   };
